@@ -407,7 +407,8 @@ fn agree(ctx: &Ctx, rep: &mut Report) {
         let method = (i % 7) as u8;
         let wide = i % 4 != 0;
         let cap: u64 = match (wide, ctx.big) { (true, false) => 60, (true, true) => 220, (false, false) => 14, (false, true) => 24 };
-        let n = rng.range(2, cap) as usize;
+        // a band of larger sizes (word-size / block-size effects) also in the quick tier
+        let n = if wide && i % 9 == 4 { rng.range(64, if ctx.big { 300 } else { 150 }) as usize } else { rng.range(2, cap) as usize };
         let kind = rng.below(3); let v0 = separated_matrix(&mut rng, n, kind);
         let bits = to_bits(&v0, wide);
         let base = AlgoCase { algo: 0, method, wide, n: n as u64, bits, family: "separated" };
@@ -421,6 +422,7 @@ fn agree(ctx: &Ctx, rep: &mut Report) {
         let t = (if wide { 1e-9 } else { 1e-3 }) * sc * (1.0 + (n as f64).log2());
         for algo in 0..5u8 {
             if !accepts(algo, method) { continue; }
+            if algo == 4 && n > 90 { continue; }   // primitive is cubic
             let c = AlgoCase { algo, ..base.clone() };
             let out = run_fresh_w(wide, algo, method, n as u64, &c.bits);
             rep.evaluations += 1;
@@ -601,7 +603,8 @@ fn permute(ctx: &Ctx, rep: &mut Report) {
         let method = (i % 7) as u8;
         let wide = i % 4 != 0;
         let cap: u64 = match (wide, ctx.big) { (true, false) => 50, (true, true) => 200, (false, false) => 12, (false, true) => 20 };
-        let n = rng.range(3, cap) as usize;
+        // a band of larger sizes (word-size and block-size effects: 64, 128, ...) also in the quick tier
+        let n = if wide && i % 9 == 4 { rng.range(64, if ctx.big { 300 } else { 150 }) as usize } else { rng.range(3, cap) as usize };
         let kind = rng.below(3); let v0 = separated_matrix(&mut rng, n, kind);
         let bits = to_bits(&v0, wide);
         let probe = AlgoCase { algo: 0, method, wide, n: n as u64, bits: bits.clone(), family: "separated" };
@@ -622,6 +625,7 @@ fn permute(ctx: &Ctx, rep: &mut Report) {
         ];
         for algo in 0..5u8 {
             if !accepts(algo, method) { continue; }
+            if algo == 4 && n > 90 { continue; }   // primitive is cubic
             let c = AlgoCase { algo, ..probe.clone() };
             let fam0 = match family_of(&c, &run_fresh_w(wide, algo, method, n as u64, &bits)) { Some(f) => f, None => continue };
             for p in &perms {
